@@ -189,16 +189,23 @@ Judge(e, n, pre, post) ==
          "c17_message_handled_although_node_has_no_term_of_that_height")
   \* C01 / C03 / C04 at every commit callback
   /\ \A i \in DOMAIN e.commits :
-       LET c == e.commits[i] IN
+       LET c == e.commits[i]
+           Base == IF e.ev = "sync" /\ e.rounds # <<>> THEN e.rounds[1].h ELSE pre.h IN
        /\ Chk(c.h \notin DOMAIN chain \/ chain[c.h] = c.blk, "c01_fork")
        /\ Chk(c.strict /\ ValidBlockProofAbs(c.proof, c.blk, c.h), "c03_committed_pair_rejected")
        /\ Chk(~c.proof.bad => c.proof.x = c.blk, "c04_committed_block_does_not_match_the_certified_hash")
        \* C04: the i-th block a step hands over is for the i-th height from the one the node was deciding
-       /\ Chk(c.h = pre.h + i - 1, "c04_committed_block_is_not_for_the_height_being_decided")
-       \* C04: (first commit of the step) the block was proposed - stored proposal, or the proposal just delivered - by the leader of its view
+       \* (a sync step first moves the node to the height after the synced block and then drains the future cache, which may hold a whole
+       \* round: the height being decided is then the one the sync started - first version compared with the height before the sync: false
+       \* alarm in the making, soak seed 112)
+       /\ Chk(c.h = Base + i - 1, "c04_committed_block_is_not_for_the_height_being_decided")
+       \* C04: (first commit of the step) the block was proposed - stored proposal, the proposal just delivered, or after a sync the
+       \* proposal drained from the cache - by the leader of its view
        /\ Chk((i = 1 /\ pre.member) =>
-                \/ \E p \in pre.pp : p.blk = c.blk /\ (p.v >= 1000000 \/ p.s = LeaderM(pre.h, p.v % NCom(pre.h)))
-                \/ (e.ev = "deliver" /\ e.msg.k \in {"PP", "NV"} /\ e.msg.blk = c.blk /\ e.msg.s = LeaderM(pre.h, e.msg.vm)),
+                \/ (e.ev # "sync" /\ \E p \in pre.pp : p.blk = c.blk /\ (p.v >= 1000000 \/ p.s = LeaderM(pre.h, p.v % NCom(pre.h))))
+                \/ (e.ev = "deliver" /\ e.msg.k \in {"PP", "NV"} /\ e.msg.blk = c.blk /\ e.msg.s = LeaderM(pre.h, e.msg.vm))
+                \/ (e.ev = "sync" /\ \E j \in DOMAIN e.stores : /\ e.stores[j].kind = "PP" /\ e.stores[j].h = Base /\ e.stores[j].blk = c.blk
+                                                               /\ (e.stores[j].v >= 1000000 \/ e.stores[j].s = LeaderM(Base, e.stores[j].v % NCom(Base)))),
               "c04_committed_block_was_not_proposed_by_the_leader_of_its_view")
        /\ Chk(<<c.h, c.blk>> \in approved \/ \E j \in DOMAIN e.vals : e.vals[j].ok /\ e.vals[j].blk = c.blk, "c04_unvalidated_block_committed")
        /\ Chk(\A j \in DOMAIN H.commits : H.commits[j] < c.h, "c13_commit_heights_not_increasing")
